@@ -163,6 +163,8 @@ type ssConn struct {
 	rxCrypto *ssCryptoState
 
 	ticketStore *ssTicketStore
+
+	receiveErr error
 }
 
 type ssRxState struct {
@@ -174,20 +176,22 @@ type ssRxState struct {
 }
 
 func (conn *ssConn) Read(b []byte) (int, error) {
-	var err error
 	// If the receive payload buffer is empty, consume data off the network.
+	// A failure is remembered, and only reported (once) when all of the
+	// payload that was decoded before it (possibly by the same call, the
+	// underlying Read may return data along with the error) has been
+	// delivered.
 	for conn.receiveDecodedBuffer.Len() == 0 {
-		if err = conn.readPackets(); err != nil {
-			break
+		if err := conn.receiveErr; err != nil {
+			conn.receiveErr = nil
+			return 0, err
 		}
+		conn.receiveErr = conn.readPackets()
 	}
 
 	// Service the read request using buffered payload.
-	var n int
-	if conn.receiveDecodedBuffer.Len() > 0 {
-		n, _ = conn.receiveDecodedBuffer.Read(b)
-	}
-	return n, err
+	n, _ := conn.receiveDecodedBuffer.Read(b)
+	return n, nil
 }
 
 func (conn *ssConn) Write(b []byte) (int, error) {
@@ -514,7 +518,7 @@ func newScrambleSuitClientConn(conn net.Conn, tStore *ssTicketStore, ca *ssClien
 	dist := probdist.New(seed, minLenDistLength, maxLenDistLength, true)
 
 	// Allocate the client structure.
-	c := &ssConn{conn, false, dist, bytes.NewBuffer(nil), bytes.NewBuffer(nil), ssRxState{}, nil, nil, tStore}
+	c := &ssConn{conn, false, dist, bytes.NewBuffer(nil), bytes.NewBuffer(nil), ssRxState{}, nil, nil, tStore, nil}
 
 	// Start the handshake timeout.
 	deadline := time.Now().Add(clientHandshakeTimeout)
